@@ -420,6 +420,9 @@ func zeroOf(r *Run, l leaf) string {
 
 func (fr *Frame) intrinsic(st *State, name string, fn *ssa.Function, args []Value, in ssa.Instruction) (Value, bool, error) {
 	r := fr.run
+	if v, handled, err := fr.bitsWriterIntrinsic(st, name, args, in); handled {
+		return v, true, err
+	}
 	switch name {
 	case "fmt.Errorf", "errors.New":
 		r.assumed[name] = true
